@@ -56,6 +56,13 @@ def r19_1(ctx):
                               [dn for dn, v in xd], skip_labels=('x',))[0]
     ctx.ob('R19.1', '_bootstrap:other-exception-is-1', ok, fi, bare[0] if bare else None,
            'the catch-all handler sets exitcode = 1 before anything else can fail')
+    # "target raises -> 1" holds for everything a target can raise, KeyboardInterrupt and GeneratorExit included:
+    # what escapes _bootstrap is reported differently by each launcher (fork: 1, spawn: -SIGINT, forkserver: 255)
+    all_exc = [x for x in bare if x.type is None or ast.unparse(x.type) == 'BaseException']
+    ctx.ob('R19.1', '_bootstrap:catch-all-catches-base-exceptions', bool(all_exc), fi, bare[0] if bare else None,
+           'bare `except:` / `except BaseException:`' if all_exc else
+           'the catch-all is `except %s`: a target that raises KeyboardInterrupt escapes _bootstrap and the exit code '
+           'depends on the start method' % (ast.unparse(bare[0].type) if bare else '?'))
     rets = [n for n in cfg.where(lambda n: n.kind == 'stmt' and isinstance(n.ast, ast.Return))]
     ok = bool(rets) and all(ast.unparse(n.ast.value) == 'exitcode' for n in rets if n.ast.value is not None) and \
         all(n.ast.value is not None for n in rets)
@@ -119,6 +126,20 @@ def r19_2(ctx, rule='R19.2'):
     ctx.ob(rule, 'poll:exited-is-exit-status', exit_ok and n_exit > 0, fi, None,
            'returncode = os.WEXITSTATUS(sts) otherwise')
     ctx.ob(rule, 'poll:only-own-pid', own_ok, fi, None, 'decoded only when waitpid returned self.pid')
+    # the status that is decoded is the one the kernel reported: no made-up status when waitpid failed (ECHILD: the
+    # child was reaped elsewhere, e.g. by another thread that is inside join())
+    others = [(dn, t) for nm in (pidv, stsv) for (dn, t, v) in q.assigns(fi, nm) if dn is not n0]
+    hs = [x for x in cfg.where(lambda x: x.kind == 'except')]
+    rset = set()
+    for h in hs:
+        rset |= cfg.reach([h.id], block_nodes={n.id for (n, c) in wp}, skip_labels=('x',))
+    leak = [dn for (dn, t, v) in defs if dn.id in rset]
+    ok = not others and not leak
+    ctx.ob(rule, 'poll:no-status-without-a-successful-waitpid', ok, fi,
+           (others[0][0] if others else leak[0]) if not ok else None,
+           'pid and status come only from os.waitpid; after a failed waitpid no exit code is stored' if ok else
+           'an exit code is made up when waitpid fails (ECHILD): a poll that loses the race against the thread that '
+           'really reaped the child overwrites the true code')
     # short circuit
     ok = all(q.has_guard(fi, n, 'self.returncode is None', True) for (n, c) in wp)
     ctx.ob(rule, 'poll:cached-code-short-circuits', ok, fi, None, 'waitpid only while returncode is None')
@@ -166,6 +187,22 @@ def r19_3(ctx):
         ok = ok and n.kind == 'stmt' and isinstance(n.ast, ast.Return) and \
             (n.ast.value is None or ast.unparse(n.ast.value) == 'None')
     ctx.ob('R19.3', 'wait:timeout-returns-None', ok, fi, None, 'when the sentinel is not ready in time: return None')
+    untimed_sentinel_wait(ctx, 'R19.3')
+
+
+def untimed_sentinel_wait(ctx, rule):
+    """An untimed wait must block in waitpid, not on the sentinel: the sentinel's write end is inherited by every
+    process the child forks, so it stays silent for as long as any descendant lives although the child is dead."""
+    m = ctx.model
+    fi = m.func('popen_fork:Popen.wait')
+    P = fi.positional_params()[1]
+    waits = [(n, c) for (n, c) in q.calls(fi, 'wait')]
+    q.need(waits, 'Popen.wait does not call connection.wait')
+    ok = all(q.has_guard(fi, n, P + ' is None', False) for (n, c) in waits)
+    ctx.ob(rule, 'wait:untimed-wait-does-not-depend-on-the-sentinel', ok, fi, waits[0][1],
+           'the sentinel is consulted only under `timeout is not None`' if ok else
+           'join() without a timeout waits for end-of-file on the sentinel pipe, which every descendant of the child '
+           'keeps open: a dead child with a living grandchild is never reaped and join()/terminate() never return')
 
 
 def r19_4(ctx):
@@ -321,6 +358,14 @@ def run(ctx):
 _PF = 'billiard/popen_fork.py'
 _PR = 'billiard/process.py'
 MUTANTS = [
+    ('echild-reports-zero', _PF, "                    # Child process not yet created. See #1731717\n                    # e.errno == errno.ECHILD == 10\n                    return None\n",
+     "                    if e.errno == errno.ECHILD:\n                        pid, sts = self.pid, 0\n                        break\n                    return None\n", 'R19.2'),
+    ('echild-stores-zero', _PF, "                    # Child process not yet created. See #1731717\n                    # e.errno == errno.ECHILD == 10\n                    return None\n",
+     "                    self.returncode = 0\n                    return self.returncode\n", 'R19.2'),
+    ('catch-all-narrowed-to-Exception', _PR, "        except:\n            exitcode = 1\n", "        except Exception:\n            exitcode = 1\n", 'R19.1'),
+    ('untimed-join-waits-on-the-sentinel', _PF,
+     "            if timeout is not None:\n                from .connection import wait\n                if not wait([self.sentinel], timeout):\n                    return None\n",
+     "            from .connection import wait\n            if not wait([self.sentinel], timeout):\n                return None\n", 'R19.3'),
     ('spawn-sentinel-write-end-not-inherited', 'billiard/popen_spawn_posix.py', "            self._fds.extend([child_r, child_w])", "            self._fds.append(child_r)", 'R19.6'),
     ('spawn-sentinel-is-the-data-pipe', 'billiard/popen_spawn_posix.py', "            self.sentinel = parent_r", "            self.sentinel = child_r", 'R19.6'),
     ('spawn-fds-not-passed', 'billiard/popen_spawn_posix.py', "spawn.get_executable(), cmd, self._fds,", "spawn.get_executable(), cmd, [child_r],", 'R19.6'),
